@@ -388,14 +388,93 @@ def bounds(tier):
     return {"scenarios": sum(1 for _ in scenarios(tier)), "kinds": KINDS, "faults": FAULTS[1:], "bodies": [list(b) for b in BODIES]}
 
 
+NESTED_SRC = '''
+marks = []
+TASKS = {}
+
+def cb_outer(tag):
+    marks.append(("cb", tag))
+
+@service
+def inner_svc(mode=None):
+    me = task.current_task()
+    TASKS["inner"] = me
+    marks.append(("inner", "start", me is TASKS.get("outer")))
+    task.unique("iname")
+    if mode == "raise":
+        raise KeyError("inner failed")
+    task.sleep(1)
+    marks.append(("inner", "end"))
+
+@CALLER
+def outer(mode=None, form=None, **kw):
+    me = task.current_task()
+    TASKS["outer"] = me
+    task.unique("oname")
+    task.add_done_callback(me, cb_outer, "O")
+    if form == "call":
+        service.call("pyscript", "inner_svc", mode=mode, blocking=True)
+    else:
+        pyscript.inner_svc(mode=mode, blocking=True)
+    marks.append(("outer", "after", task.current_task() is me, task.name2id("oname") is me))
+    task.sleep(1)
+    marks.append(("outer", "end", task.current_task() is me))
+'''
+
+
+def run_nested(caller, form, mode, legacy):
+    """A pyscript task calls a pyscript @service and waits for it: the service still runs as its own task, and the caller
+    keeps its identity, its unique name and its done callbacks until it ends itself."""
+    from custom_components.pyscript.function import Function
+    from mc.world import World
+
+    deco = "service" if caller == "service" else "event_trigger('ev_outer')"
+    w = World({"hello.py": NESTED_SRC.replace("CALLER", deco)}, legacy=legacy, capture_logs=True)
+    try:
+        data = {"mode": mode, "form": form}
+        if caller == "service":
+            w.start_service("pyscript", "outer", data)
+        else:
+            w.fire("ev_outer", data)
+        w.settle()
+        w.advance(5)
+        w.collect()
+        marks = [tuple(m) for m in w.g()["marks"]]
+        want = [("inner", "start", False)] + ([("inner", "end")] if mode == "ok" else []) + [
+            ("outer", "after", True, True), ("outer", "end", True), ("cb", "O")]
+        if marks != want:
+            return {"kind": "nested-service-call", "expected": want, "observed": marks}, marks
+        stale = [name for name, table in (("our_tasks", Function.our_tasks), ("task2cb", Function.task2cb), ("task2context", Function.task2context),
+                                         ("unique_task2name", Function.unique_task2name)) for tk in list(table) if tk.done()]
+        if stale or Function.unique_name2task:
+            return {"kind": "stale-registry-entry", "observed": (stale, sorted(Function.unique_name2task))}, marks
+        if w.errors:
+            return {"kind": "loop-exception", "observed": repr(w.errors[0])[:200]}, marks
+        return None, marks
+    finally:
+        w.close()
+
+
+NESTED = [(c, f, m) for c in ("service", "trigger") for f in ("call", "direct") for m in ("ok", "raise")]
+
+
 def plan(tier, seed):
     n = 64 if tier == "thorough" else 32
-    return [(tier, legacy, k, n) for legacy in (False, True) for k in range(n)]
+    return [(tier, legacy, k, n) for legacy in (False, True) for k in range(n)] + [("nested", legacy) for legacy in (False, True)]
 
 
 def run_shard(shard):
-    tier, legacy, k, n = shard
     res = Shard()
+    if shard[0] == "nested":
+        legacy = shard[1]
+        for c, f, m in NESTED:
+            fail, marks = run_nested(c, f, m, legacy)
+            case = {"nested": [c, f, m], "legacy": legacy}
+            res.case(("nested", c, f, m, tuple(marks)), nontrivial=True, transitions=4, config=("legacy" if legacy else "new") + "/nested", sample=case)
+            if fail:
+                res.fail(f"{'legacy' if legacy else 'new'}|nested|{fail['kind']}|{m}", case, expected=fail.get("expected"), observed=fail.get("observed"))
+        return res
+    tier, legacy, k, n = shard
     for i, sc in enumerate(scenarios(tier)):
         if i % n != k:
             continue
@@ -412,6 +491,9 @@ def run_shard(shard):
 
 
 def replay(case):
+    if "nested" in case:
+        fail, marks = run_nested(*case["nested"], case["legacy"])
+        return {"ok": fail is None, "failure": fail, "marks": [repr(m) for m in marks]}
     s = case["scenario"]
     sc = (s[0], tuple(s[1]), tuple(s[2]), s[3], s[4], s[5])
     fail, out = run_scenario(sc, case["legacy"])
